@@ -636,6 +636,80 @@ def check_local_module_import(case, ev=None, scratch=None):
             scratch.clean()
 
 
+# ---- a tracked structure modified in place at a nested level --------------------------------------------------------------
+
+NESTED_SRC = """import dds
+import vlog
+
+CONF = {conf}
+
+
+@dds.data_function('/nm/out')
+def f():
+    vlog.rec('f')
+    return ('f', repr(CONF))
+"""
+NESTED_CONFS = {
+    "dict_of_list": ("{'features': [1], 'k': 2}", "m.CONF['features'].append({n})"),
+    "list_of_list": ("[[1], [2, 3]]", "m.CONF[1].append({n})"),
+    "dict_of_dict": ("{'opt': {'a': 1}, 'k': 2}", "m.CONF['opt']['b{n}'] = {n}"),
+    "list_top_level": ("[1, 2]", "m.CONF.append({n})"),
+    "odict_of_list": ("__import__('collections').OrderedDict([('rows', [1])])", "m.CONF['rows'].append({n})"),
+}
+
+
+def _nested_apply(stmt):
+    import importlib
+
+    m = importlib.import_module("pk.m0")
+    exec(stmt, {"m": m})
+    return repr(m.CONF)
+
+
+def nested_strategy():
+    from hypothesis import strategies as st
+
+    return st.fixed_dictionaries({"nested": st.sampled_from(sorted(NESTED_CONFS)), "store": st.sampled_from([["memory", None], ["local", None], ["local-lru", 2]]),
+                                  "steps": st.lists(st.sampled_from(["mutate", "mutate", "none"]), min_size=1, max_size=4)})
+
+
+def check_nested_mutation(case, ev=None, scratch=None):
+    """A tracked list / dict is modified IN PLACE below its top level while the process lives (CONF['features'].append(x)): the next
+    evaluation must see the new content."""
+    from ..harness import proc
+    import os
+
+    own = scratch is None
+    scratch = scratch or common.Scratch("vf-c01")
+    root_dir, store_dir = scratch.sub(), scratch.sub()
+    conf, stmt = NESTED_CONFS[case["nested"]]
+    for rel, content in {"pk/__init__.py": "", "pk/m0.py": NESTED_SRC.format(conf=conf)}.items():
+        pth = os.path.join(root_dir, rel)
+        os.makedirs(os.path.dirname(pth), exist_ok=True)
+        open(pth, "w").write(content)
+    w = proc.Worker()
+    tag = f"[tracked structure modified in place: {case['nested']} / {case['store'][0]}]"
+    try:
+        w.call("init", root=root_dir, accepted=["pk"], store={"kind": case["store"][0], "dir": store_dir, "cache": case["store"][1]})
+        current = w.call("call", module="vf.props.c01", func="_nested_apply", args=["pass"])
+        n = 10
+        for si, stp in enumerate(["none"] + case["steps"]):
+            if stp == "mutate":
+                n += 1
+                current = w.call("call", module="vf.props.c01", func="_nested_apply", args=[stmt.format(n=n)])
+            r = w.call("eval", module="pk.m0", func="f", style="direct")
+            if r["exc"] is not None:
+                raise Violation(f"{tag} step {si}: evaluation raised {r['exc']['type']}: {r['exc']['msg'][:200]}", case)
+            if r["value"] != ("f", current):
+                raise Violation(f"{tag} step {si}: returned {r['value']!r} but the structure is now {current}; steps={case['steps']}", case)
+        if ev is not None:
+            ev.case(case, "mutate" in case["steps"], features=["tracked-structure-modified-in-place", "nested:" + case["nested"]])
+    finally:
+        w.close()
+        if own:
+            scratch.clean()
+
+
 def gen_opts():
     return {"exclude": common.open_features(ID), "loads": False, "nested_args": True}
 
@@ -656,6 +730,8 @@ def shard(idx, n, tier, seed, count):
 
     try:
         v = common.hyp_drive(history_strategy(opts), check, seed * 1000 + 100 + idx, count, ev)
+        if v is None and idx % 4 == 1:
+            v = common.hyp_drive(nested_strategy(), lambda c: check_nested_mutation(c, ev, scratch), seed * 1000 + 190 + idx, max(3, count // 8), ev)
         if v is None and idx % 4 == 2:
             v = common.hyp_drive(locmod_strategy(), lambda c: check_local_module_import(c, ev, scratch), seed * 1000 + 170 + idx, max(3, count // 8), ev)
         if v is None and idx % 4 == 0:
@@ -673,6 +749,8 @@ def run(tier, seed, scale=1.0):
 
 
 def replay(case):
+    if "nested" in case:
+        return check_nested_mutation(case)
     if "locmod" in case:
         return check_local_module_import(case)
     if "dup" in case:
